@@ -224,6 +224,31 @@ func c04R2(c *Ctx) {
 			copied = true
 		}
 	})
+	{
+		// universal forms: after a decode, every successful return has put the undecoded rest back as the buffer; and the
+		// refill read is reached only after the rest was copied to the front of the new buffer
+		uc := calls[0].(*ssa.Call)
+		isKeep := func(in ssa.Instruction) bool {
+			st, ok := in.(*ssa.Store)
+			if !ok {
+				return false
+			}
+			n, ok := fieldAddrName(st.Addr)
+			return ok && n == "escapeReader.buffer" && rem != nil && sameValue(st.Val, rem)
+		}
+		isCarry := func(in ssa.Instruction) bool {
+			call, ok := in.(*ssa.Call)
+			return ok && calleeID(&call.Call) == "builtin copy" && rem != nil && sameValue(call.Call.Args[1], rem)
+		}
+		isRefill := func(in ssa.Instruction) bool {
+			call, ok := in.(*ssa.Call)
+			return ok && call.Call.IsInvoke() && call.Call.Method.Name() == "Read"
+		}
+		hitK, pathK := reachAvoid(uc, isNilErrReturn, isKeep)
+		c.check(hitK == nil, "escapeReader/keep-remaining-on-every-return", c.ipos(uc), "every successful return after a decode leaves the undecoded rest as the buffer", "a successful return after a decode can leave the old buffer in place (decoded bytes are delivered again) or drop the rest", c.pathStr(pathK)...)
+		hitC, pathC := reachAvoid(uc, isRefill, isCarry)
+		c.check(hitC == nil, "escapeReader/carry-before-every-refill", c.ipos(uc), "after a decode the reader refills only with the undecoded rest copied to the front", "the reader can refill after a decode without carrying the undecoded rest over (a split escape pair loses its leader)", c.pathStr(pathC)...)
+	}
 	c.check(keep, "escapeReader/keep-remaining", c.ipos(calls[0]), "after delivering bytes the undecoded rest stays buffered", "the undecoded rest is dropped after a partial decode")
 	c.check(copied, "escapeReader/carry-over", c.ipos(calls[0]), "a lone leader is copied to the front of the next read buffer", "a trailing leader is dropped when the reader refills")
 	// the refill read starts after the carried bytes
